@@ -709,6 +709,7 @@ pub fn replay(case: &Sx) -> Option<Sx> {
     let in_range = |vs: &[usize]| vs.iter().all(|v| *v < all.len());
     match op {
         13 => crate::c16_bodies::replay(l.get(1)?, l.get(2)?, l.get(3)?),
+        14 => crate::c16_bodies::replay_query(l.get(1)?, l.get(2)?),
         1 => {
             let h = hist(1)?;
             if l.get(2)?.as_int()? != all.len() as i128 {
